@@ -1,14 +1,14 @@
 --------------------------------- MODULE T2J ---------------------------------
 (* Layer 1 for C03: Thrift -> JSON on abstract values.                        *)
 (* Descriptor fields carry [id, name, key, req, ty]; ty.n = "binary" marks a  *)
-(* binary-typed string.  opts = [i2s, u8, nob64, disallow].                   *)
+(* binary-typed string.  opts = [i2s, u8, nob64, disallow, wreq, wdef, wopt, optbm]. *)
 (* Result [ok, j, err]: for C03 "fails with an error" is always conforming    *)
 (* only where the value has no JSON denotation (ErrOnly) - everywhere else    *)
 (* the expected document is returned.                                         *)
-EXTENDS TDesc, JValue
+EXTENDS TDesc, JValue, J2T
 
-TOk(j) == [ok |-> TRUE, j |-> j, err |-> ""]
-TErr(e) == [ok |-> FALSE, j |-> JX("null", <<>>), err |-> e]
+TOk(j) == [ok |-> TRUE, j |-> j, err |-> "", np |-> 0]
+TErr(e) == [ok |-> FALSE, j |-> JX("null", <<>>), err |-> e, np |-> 0]
 IsNonFinite(b8) == b8[1] % 128 = 127 /\ b8[2] >= 240         \* exponent all ones
 IntX(v, u8) == IF v.t = T_I8 /\ u8 THEN JX("int", ZeroExt8(v.b)) ELSE JX("int", SignExt8(v.b))
 
@@ -27,11 +27,19 @@ T2JV(v, ty, defs, o) ==
   ELSE IF v.kt \notin (IntKinds \cup {T_STR}) THEN (IF v.e = <<>> THEN TOk(JObj(<<>>)) ELSE TErr("KeyKind"))
   ELSE T2JPairs(v.e, ty.a[1], ty.a[2], defs, o, <<>>)
 T2JFields(fs, fields, defs, o, acc) ==
-  IF fs = <<>> THEN TOk(JObj(acc))
+  IF fs = <<>> THEN
+     \* fields absent from the message: the same requiredness / write-option table as JSON->Thrift (C16)
+     LET seen == {acc[i].id : i \in 1..Len(acc)}
+         un == SelectSeq(fields, LAMBDA f : f.id \notin seen) IN
+     IF \E i \in 1..Len(un) : Unset(un[i], o) = "err" THEN TErr("MissRequired")
+     ELSE LET fill == SelectSeq(un, LAMBDA f : Unset(f, o) = "write")
+              fj == [i \in 1..Len(fill) |-> T2JV(FillOf(fill[i], o), fill[i].ty, defs, o)] IN
+          [ok |-> TRUE, err |-> "", np |-> Len(acc),
+           j |-> JObjNp([i \in 1..Len(acc) |-> acc[i].m] \o [i \in 1..Len(fill) |-> JMem("str", fill[i].key, fj[i].j)], Len(acc))]
   ELSE LET f == Head(fs)  k == FieldIdx(fields, f.id) IN
        IF k = 0 THEN (IF o.disallow THEN TErr("UnknownField") ELSE T2JFields(Tail(fs), fields, defs, o, acc))
        ELSE LET r == T2JV(f.v, fields[k].ty, defs, o) IN
-            IF ~r.ok THEN r ELSE T2JFields(Tail(fs), fields, defs, o, Append(acc, JMem("str", fields[k].key, r.j)))
+            IF ~r.ok THEN r ELSE T2JFields(Tail(fs), fields, defs, o, Append(acc, [id |-> f.id, m |-> JMem("str", fields[k].key, r.j)]))
 T2JElems(es, ety, defs, o, acc) ==
   IF es = <<>> THEN TOk(JArr(acc))
   ELSE LET r == T2JV(Head(es), ety, defs, o) IN IF ~r.ok THEN r ELSE T2JElems(Tail(es), ety, defs, o, Append(acc, r.j))
